@@ -409,6 +409,15 @@ def mip_part(ctx, n_elections, solve_every=5, gen_case=None, subsets=None, budge
                                            "cfg": {"part": "mip", "W": job["W"], "stable": job["stable"], "exhaustive": job["exhaustive"]},
                                            "impl": dump["error"], "expected": "a program", "sig": {"call": "priceable", "kind": "exception"}})
                     continue
+                if "vars" not in dump:
+                    # no program reached the solver at all (round 7, C12-r7A: a shortcut answering without the search): the tie is
+                    # broken for this call — recorded, and the call's verdict is judged by the search streams of C12
+                    ctx.count("mip_compare", "no program posed")
+                    ctx.disagreements.append({"line": job["_line"], "impl": "no optimize() call: " + str({k: dump[k] for k in list(dump)[:4]})[:200], "model": "1 program",
+                                              "case": case.to_json(), "cfg": {"part": "mip", "W": job["W"], "stable": job["stable"], "exhaustive": job["exhaustive"],
+                                                                              "fb": job.get("fb"), "pf": job.get("pf")},
+                                              "what": "priceable() answered without handing a program to the solver; the model poses exactly one"})
+                    continue
                 named = compare(ctx, case, job, dump, answer)
                 if len(case.ballots) >= 2 and len(case.names) >= 2:
                     ctx.nontrivial.add((case.key(), "mip", None if job["W"] is None else tuple(job["W"]), job["stable"], job["exhaustive"],
